@@ -152,6 +152,10 @@ def nontrivial(case):
 def check(rep, tier, seed, driver):
     py2v_arch.report(rep)
     rng = random.Random(seed)
+    _dd = au.dict_dtype_stream(rep, random.Random(seed + 77), 40 if tier == "quick" else 400, "agree")
+    if _dd:
+        rep.violation("dict-dtype archive: " + _dd[0], {"kind": "property", "broken": "C02 under the dict form of dtype (objective and measures in different float types)",
+                                                     "case": _dd[1]}, True, {"kind": "dict-dtype"})
     n = 300 if tier == "quick" else 2500
     rep.rule = ("(a) elitist archives, whole-history comparison, wild floats; (b) CMA-MAE and elitist archives, step-wise simulation from the "
                 "implementation's pre-state, histories generated against a live archive so that 30% of the objectives sit exactly at, one "
